@@ -29,7 +29,7 @@ type C17Case struct {
 
 var c17Buckets = []string{"A", "B"}
 var c17Keys = [][]byte{[]byte("k0"), []byte("k1"), []byte("\x00\x00\x00\x00\x00\x00\x00\x07"), []byte("k")}
-var c17Vals = [][]byte{{1}, {2, 2}, bytes.Repeat([]byte{3}, 40), {0}}
+var c17Vals = [][]byte{{1}, {2, 2}, bytes.Repeat([]byte{3}, 40), {}}
 
 func genC17(t *rapid.T) C17Case {
 	n := rapid.IntRange(1, 24).Draw(t, "n")
@@ -147,7 +147,7 @@ func (s *kvSession) apply(step int, op KVOp) error {
 		if b == nil {
 			return fmt.Errorf("[%s] step %d: Bucket(%q) is nil although it was created", s.be.Name, step, bn)
 		}
-		if err := b.Put(append([]byte(nil), k...), append([]byte(nil), v...)); err != nil {
+		if err := b.Put(append([]byte(nil), k...), append([]byte{}, v...)); err != nil {
 			return fmt.Errorf("[%s] step %d: Put(%s/%q) failed: %v", s.be.Name, step, bn, k, err)
 		}
 		if s.model.Committed[bn][string(k)] == nil {
@@ -242,14 +242,14 @@ func runC17(c C17Case, cs *kit.CaseStats) error {
 }
 
 var c17Assumptions = []string{
-	"domain: only created buckets are written; creating an existing bucket is expected to be refused without effect (Bolt's behaviour); values are non-empty; key/value slices are not mutated after being handed over",
+	"domain: only created buckets are written; creating an existing bucket is expected to be refused without effect (Bolt's behaviour); values are non-nil (one of them zero-length, as the chain store writes for an emptied expiration list); key/value slices are not mutated after being handed over",
 	"crash model for 'reopen': everything not flushed is lost (Cancel, close without committing, open again); torn commits inside bbolt are out of scope",
 	"bbolt is opened with NoSync (durability to the OS, not the disk)",
 }
 
 var c17Prop = kit.Prop[C17Case]{
 	ID:          "C17",
-	Rule:        "rapid operation sequences (1..24 ops: create, put, delete, flush, cancel, crash-reopen over 2 buckets × 4 keys × 4 values) run on MemDB, CacheDB(MemDB), CacheDB(CacheDB(MemDB)), Bolt and CacheDB(Bolt) next to a committed-map+overlay model; after (most) steps every key is read and every bucket iterated on every backend and compared with the model. Non-trivial = a read or iteration that follows an unflushed delete of a committed key or an unflushed put of a new key; distinct by hash of the sequence.",
+	Rule:        "rapid operation sequences (1..24 ops: create (also of existing buckets), put, delete, flush, cancel, crash-reopen over 2 buckets × 4 keys × 4 values, one of them zero-length) run on MemDB, CacheDB(MemDB), CacheDB(CacheDB(MemDB)), Bolt and CacheDB(Bolt) next to a committed-map+overlay model; after (most) steps every key is read and every bucket iterated on every backend and compared with the model. Non-trivial = a read or iteration that follows an unflushed delete of a committed key or an unflushed put of a new key; distinct by hash of the sequence.",
 	Assumptions: c17Assumptions,
 	Gen:         genC17,
 	Run:         runC17,
@@ -268,10 +268,10 @@ func TestC17Exhaustive(t *testing.T) {
 		maxLen = v
 	}
 	alphabet := []KVOp{
-		{Op: "put", K: 0, V: 0}, {Op: "put", K: 0, V: 1}, {Op: "put", K: 1, V: 0},
+		{Op: "put", K: 0, V: 0}, {Op: "put", K: 0, V: 3}, {Op: "put", K: 1, V: 0},
 		{Op: "del", K: 0}, {Op: "del", K: 1}, {Op: "flush"}, {Op: "cancel"},
 	}
-	d := kit.NewDirect(t, "C17", fmt.Sprintf("exhaustive: every sequence of length 1..%d over {put k0=v0, put k0=v1, put k1=v0, del k0, del k1, flush, cancel} after create+flush of one bucket, full read-back after every step, on MemDB, CacheDB(MemDB), CacheDB(CacheDB(MemDB)); Bolt and CacheDB(Bolt) up to length %d", maxLen, maxLen-2), c17Assumptions...)
+	d := kit.NewDirect(t, "C17", fmt.Sprintf("exhaustive: every sequence of length 1..%d over {put k0=v0, put k0=<empty value>, put k1=v0, del k0, del k1, flush, cancel} after create+flush of one bucket, full read-back after every step, on MemDB, CacheDB(MemDB), CacheDB(CacheDB(MemDB)); Bolt and CacheDB(Bolt) up to length %d", maxLen, maxLen-2), c17Assumptions...)
 	d.St.Exhaustive = true
 	defer d.Done()
 	prefix := []KVOp{{Op: "create", B: 0}, {Op: "flush"}}
